@@ -78,15 +78,24 @@ Theorem C13_backoff_step_not_below : forall mB sB last factor,
 Proof. exact backoff_step_not_below. Qed.
 Print Assumptions C13_backoff_step_not_below.
 
+(* "backoff equals delay*factor^k" up to float32 rounding, one step: for EVERY positive last delay and positive factor,
+   |Duration(float32(last) * factor) - last*factor| <= last*factor / 2^22 + 1 ns *)
+Theorem C13_backoff_step_equals_product_up_to_rounding : forall last fn fd,
+  0 < last -> 0 < fn -> 0 < fd ->
+  let step := to_int (fmul 24 (of_int 24 last) (fn, fd)) in
+  2 ^ 22 * Z.abs (step * fd - last * fn) <= last * fn + 2 ^ 22 * fd.
+Proof. exact backoff_step_accuracy. Qed.
+Print Assumptions C13_backoff_step_equals_product_up_to_rounding.
+
 (* premises are satisfiable: 100 ms = 390625 * 2^8 ns has 19 significant bits *)
 Example C13_100ms_is_representable :
   let mB := 390625 * 2 ^ 5 in let sB := -3 in
   2 ^ 23 <= mB < 2 ^ 24 /\ fle (100000000, 1) (bval mB sB) /\ fle (bval mB sB) (100000000, 1).
 Proof. vm_compute. repeat split; discriminate. Qed.
 
-(* Partial: the jitter-FACTOR envelope |jittered - base| <= jitterFactor*base (+ float32 rounding of three operations) and
-   "backoff never decreases" for delays that are NOT exactly representable in float32 (e.g. 16777217 ns with factor 1
-   gives 16777216 ns) hold only up to rounding; their analytic slack is not proved: it is evaluated by the checker on every
-   observed delay of every run (a test, not a theorem).
+(* Partial: the jitter-FACTOR envelope |jittered - base| <= jitterFactor*base (+ float32 rounding of three operations) is not
+   proved: it is evaluated by the checker on every observed delay of every run (a test, not a theorem).  "Backoff never
+   decreases" holds exactly on float32-representable delays (theorem above) and otherwise up to the rounding bound of
+   C13_backoff_step_equals_product_up_to_rounding (e.g. 16777217 ns with factor 1 gives 16777216 ns).
    "The next attempt never starts before the scheduled delay has elapsed" is Model/Exec.v's retry loop
    (wait d between RetryScheduled and the next attempt) and is compared instant by instant (C02, C16). *)
